@@ -10,6 +10,7 @@ import glob
 import fractions
 import itertools
 import os
+import signal
 
 from antismash.common.hmm_rule_parser import rule_parser
 from antismash.common.hmm_rule_parser.rule_parser import (
@@ -480,7 +481,43 @@ def check_alias(cond, i, j, where):
                 bad_texts = [bad_define + rule] if where == "same" else [bad_define, rule]
                 bad_fails, _ = judge_texts(bad_texts)
                 fails.extend((f"alias-body:{clause}", detail) for clause, detail in bad_fails)
+    # an alias whose own name appears in its body (one token of a well-formed file replaced by another identifier of the file): there
+    # is nothing to substitute it by, so it has to be refused like any unknown profile - and within a time limit, a substitution that
+    # feeds itself never ends
+    if outcome == "both-accept" and where == "same":
+        for k, token in enumerate(body):
+            if token in PROFILES:
+                looping = ["DEFINE", "al", "AS"] + body[:k] + ["al"] + body[k + 1:]
+                try:
+                    with time_limit(3):
+                        _parse_seq([looping + rule])
+                    fails.append(("alias-body:accepted-ill-formed", f"self-referring alias accepted: {join(looping + rule)}"))
+                except ParseTimeout:
+                    fails.append(("alias-body:parser-does-not-terminate", f"{join(looping + rule)}"))
+                except Exception:  # pylint: disable=broad-except
+                    pass
     return fails, outcome, changed
+
+
+class ParseTimeout(BaseException):
+    """raised by the interval timer; a BaseException so that no handler in the parser can swallow it"""
+
+
+class time_limit:  # pylint: disable=invalid-name
+    def __init__(self, seconds):
+        self.seconds = seconds
+
+    def _fire(self, _signum, _frame):
+        raise ParseTimeout()
+
+    def __enter__(self):
+        self.previous = signal.signal(signal.SIGALRM, self._fire)
+        signal.setitimer(signal.ITIMER_REAL, self.seconds)
+
+    def __exit__(self, *_exc):
+        signal.setitimer(signal.ITIMER_REAL, 0)
+        signal.signal(signal.SIGALRM, self.previous)
+        return False
 
 
 def _parse_seq(texts):
